@@ -177,7 +177,7 @@ func run(prop, tier string, meta Meta) {
 	var mu sync.Mutex
 	var results []wres
 	var wg sync.WaitGroup
-	launch := func(idx int, binary string, fine bool) {
+	launch := func(idx, of int, binary string, fine bool) {
 		defer wg.Done()
 		name := fmt.Sprintf("worker-%d", idx)
 		if fine {
@@ -188,7 +188,7 @@ func run(prop, tier string, meta Meta) {
 		cmd := exec.Command(binary, "-test.run", "^Test"+prop+"$", "-test.cpu", "1", "-test.timeout", "0", "-test.count", "1")
 		cmd.Dir = filepath.Join(verifDir, "checks")
 		e := append(env(), "VERIF_PROP="+prop, "VERIF_TIER="+tier, fmt.Sprintf("VERIF_SEED=%d", seed),
-			fmt.Sprintf("VERIF_WORKER=%d", idx), fmt.Sprintf("VERIF_WORKERS=%d", workers), "VERIF_OUT="+outPath,
+			fmt.Sprintf("VERIF_WORKER=%d", idx), fmt.Sprintf("VERIF_WORKERS=%d", of), "VERIF_OUT="+outPath,
 			fmt.Sprintf("VERIF_BUDGET_S=%d", budget), "GODEBUG=asyncpreemptoff=1")
 		if fine {
 			e = append(e, "VERIF_FINE=1")
@@ -233,13 +233,19 @@ func run(prop, tier string, meta Meta) {
 		results = append(results, r)
 		mu.Unlock()
 	}
+	nFine := 0
+	if fineBin != "" && meta.FineStep {
+		nFine = workers / 4
+		if nFine < 1 {
+			nFine = 1
+		}
+	}
 	for i := 0; i < workers; i++ {
 		wg.Add(1)
-		useFine := fineBin != "" && meta.FineStep
-		if useFine && i%2 == 1 {
-			go launch(i, fineBin, true)
+		if i < nFine {
+			go launch(i, nFine, fineBin, true)
 		} else {
-			go launch(i, bin, false)
+			go launch(i-nFine, workers-nFine, bin, false)
 		}
 	}
 	wg.Wait()
@@ -393,7 +399,7 @@ func replay(path string) {
 	meta := propMeta[rep.Property]
 	bin := build(false)
 	envx := []string{}
-	if strings.HasPrefix(rep.Workload, "router-fine") && meta.FineStep {
+	if strings.HasSuffix(rep.Workload, "-fine") && meta.FineStep {
 		bin = build(true)
 		envx = append(envx, "VERIF_FINE=1")
 	}
